@@ -2,7 +2,7 @@
    Searcher::conforms are regenerated from the source on every run (gen/CmpGen.v).
    Statements only. *)
 From Coq Require Import List ZArith Bool Lia ZifyBool String.
-From FS Require Import lib.Str gen.OpsGen gen.CmpGen gen.SizeGen proofs.C03_negate.
+From FS Require Import lib.Str lib.Dec gen.OpsGen gen.CmpGen gen.SizeGen model.Size spec.SizeSpec model.Conforms proofs.C03_negate proofs.C02_int.
 Import ListNotations.
 Open Scope Z_scope.
 
@@ -33,7 +33,25 @@ Proof. repeat split; reflexivity. Qed.
 Theorem C02_between_inclusive : forall x a b, between x a b = (a <=? x) && (x <=? b).
 Proof. exact between_inclusive. Qed.
 
+(* `numeric column OP literal`: model/Conforms.v puts Variant::to_int (parse::<i64>, then util::parse_filesize with the
+   ladder regenerated from the source, else 0) in front of the regenerated comparison table.  For EVERY attribute
+   value, operator, integer and documented unit in any spelling (any letter case, spaces anywhere) the condition is
+   the numeric comparison with integer x documented multiplier; a plain or negative integer literal is itself *)
+Theorem C02_int_literal_with_unit : forall o x u M w n,
+  unit_multiplier u = Some M -> u <> [] -> spelling_of u w -> Z.of_N n * M < 2 ^ 53 ->
+  conforms_int o x (show_N n ++ w) = cmp_int o x (Z.of_N n * M).
+Proof. exact int_literal_with_unit. Qed.
+Theorem C02_int_literal_plain : forall o x n, Z.of_N n < 9223372036854775808 ->
+  conforms_int o x (show_N n) = cmp_int o x (Z.of_N n).
+Proof. exact int_literal_plain. Qed.
+Theorem C02_int_literal_negative : forall o x n, Z.of_N n <= 9223372036854775808 ->
+  conforms_int o x (45%N :: show_N n) = cmp_int o x (- Z.of_N n).
+Proof. exact int_literal_negative. Qed.
+
 Print Assumptions C02_int_table.
+Print Assumptions C02_int_literal_with_unit.
+Print Assumptions C02_int_literal_plain.
+Print Assumptions C02_int_literal_negative.
 Print Assumptions C02_int_table_other_ops.
 Print Assumptions C02_bool_table.
 Print Assumptions C02_bool_words.
